@@ -483,6 +483,43 @@ theorem C17_ioprio_unguarded_counterexample :
     ioniceSetPy { icfg with cGuard := none, cDataGuard := none, pyClassGuard := none } 262144 (some 0) = .ub := by
   decide
 
+/-! ## NIC speed from the two ethtool halves -/
+
+/-- translator obligation: net.c widens `speed_hi` to an unsigned 32-bit type before `<< 16` -/
+theorem ecfg_good : ecfg.castUnsigned = true := by decide
+
+/-- **C17_ethspeed_defined** — for every pair of 16-bit halves a driver can report, the speed
+    computation is defined and yields the documented value: the 32-bit Mb/s figure, or 0 for
+    SPEED_UNKNOWN (0xFFFFFFFF) and for anything above INT_MAX. -/
+theorem C17_ethspeed_defined (c : ECfg) (hg : c.castUnsigned = true) (hi lo : Nat) (hh : hi < 65536) (hl : lo < 65536) :
+    ethSpeed c hi lo = .speed (nicSpeed hi lo) ∧ 0 ≤ nicSpeed hi lo ∧ nicSpeed hi lo ≤ 2147483647 := by
+  have hor : hi * 65536 ||| lo = hi * 65536 + lo := by
+    have h := Nat.two_pow_add_eq_or_of_lt (i := 16) (b := lo) (by simpa using hl) hi
+    have e : (2 : Nat) ^ 16 = 65536 := by decide
+    rw [e] at h
+    rw [Nat.mul_comm hi 65536, ← h]
+  unfold ethSpeed nicSpeed INT_MAX
+  rw [hg, hor]
+  have hm : (hi * 65536 + lo) % 4294967296 = hi * 65536 + lo := Nat.mod_eq_of_lt (by omega)
+  simp only [Bool.not_true, Bool.false_and, Bool.false_eq_true, if_false, hm]
+  by_cases h1 : hi * 65536 + lo = 4294967295
+  · simp [h1]
+  · by_cases h2 : hi * 65536 + lo > 2147483647
+    · have h2' : ((hi * 65536 + lo : Nat) : Int) > 2147483647 := by omega
+      simp only [h1, h2, h2', or_true, if_true, true_and]
+      omega
+    · have h2' : ¬ ((hi * 65536 + lo : Nat) : Int) > 2147483647 := by omega
+      simp only [h1, h2, h2', or_self, if_false, true_and]
+      omega
+
+theorem C17_ethspeed_defined_current (hi lo : Nat) (hh : hi < 65536) (hl : lo < 65536) :
+    ethSpeed ecfg hi lo = .speed (nicSpeed hi lo) :=
+  (C17_ethspeed_defined ecfg ecfg_good hi lo hh hl).1
+
+/-- **counterexample (found by the UBSan build on the sandbox's eth0)** — a NIC that reports
+    SPEED_UNKNOWN (both halves 0xFFFF) makes `speed_hi << 16` overflow `int` without the cast. -/
+theorem C17_ethspeed_uncast_counterexample : ethSpeed { castUnsigned := false } 65535 65535 = .ub := by decide
+
 /-! ## net_if_flags: bit → name -/
 
 /-- **C17_iff_table** — the C table (macro → name), restricted to the macros the platform's
